@@ -12,7 +12,8 @@
                           ._base_placeholder
       oxml/shapes/autoshape.py CT_Shape.new_placeholder_sp
       oxml/shapes/shared.py CT_Placeholder defaults, BaseShapeElement x/y/cx/cy,
-                          CT_Transform2D (a:off and a:ext are created independently, with zeros)
+                          (validation before anything is added), CT_Transform2D (a:off and a:ext
+                          are created independently, with zeros)
       parts/presentation.py add_slide, parts/slide.py NotesSlidePart.new
 
     Every literal table comes from gen/GenC13.v (regenerated from /repo on every run) through
@@ -207,22 +208,26 @@ Definition coord_ok (a : attr) (v : Z) : bool :=
   | AWidth | AHeight => (0 <=? v)%Z && (v <=? 27273042316900)%Z
   end.
 
-(** shape.left = v etc.: get_or_add_xfrm, get_or_add_off (new a:off is x=0 y=0), then the
-    validated assignment; a rejected value leaves the freshly created zeros behind *)
+(** shape.left = v etc. (BaseShapeElement x / y / cx / cy setters): the value is validated
+    FIRST (ST_Coordinate.validate / ST_PositiveCoordinate.validate); a rejected value raises
+    ValueError and leaves the shape exactly as it was (no a:xfrm / a:off / a:ext is created,
+    an inheriting shape keeps inheriting).  An accepted value goes through get_or_add_xfrm and
+    get_or_add_off / get_or_add_ext: a new a:off is x=0 y=0 and a new a:ext is cx=0 cy=0, so
+    the partner dimension of the pair becomes an own 0. *)
 Definition set_attr (a : attr) (v : Z) (s : shape) : shape * res unit :=
-  let off0 := match s_off s with Some o => o | None => (0, 0)%Z end in
-  let ext0 := match s_ext s with Some e => e | None => (0, 0)%Z end in
-  let ok := coord_ok a v in
-  let off1 := match a with
-              | ALeft => Some (if ok then (v, snd off0) else off0)
-              | ATop => Some (if ok then (fst off0, v) else off0)
-              | _ => s_off s end in
-  let ext1 := match a with
-              | AWidth => Some (if ok then (v, snd ext0) else ext0)
-              | AHeight => Some (if ok then (fst ext0, v) else ext0)
-              | _ => s_ext s end in
-  (mk_shape (s_id s) (s_name s) (s_ph s) off1 ext1 (s_txbody s),
-   if ok then Ok tt else Err ValueErr).
+  if coord_ok a v then
+    let off0 := match s_off s with Some o => o | None => (0, 0)%Z end in
+    let ext0 := match s_ext s with Some e => e | None => (0, 0)%Z end in
+    let off1 := match a with
+                | ALeft => Some (v, snd off0)
+                | ATop => Some (fst off0, v)
+                | _ => s_off s end in
+    let ext1 := match a with
+                | AWidth => Some (v, snd ext0)
+                | AHeight => Some (fst ext0, v)
+                | _ => s_ext s end in
+    (mk_shape (s_id s) (s_name s) (s_ph s) off1 ext1 (s_txbody s), Ok tt)
+  else (s, Err ValueErr).
 
 Definition clear_xfrm (s : shape) : shape :=
   mk_shape (s_id s) (s_name s) (s_ph s) None None (s_txbody s).
